@@ -17,6 +17,8 @@ Why(r) ==
         (IF r.unresolved # <<>> THEN "documented-name-rejected"
          ELSE IF r.collisions # <<>> THEN "names-collide"
          ELSE IF r.defaults_without_name # <<>> THEN "default-not-selectable"
+         \* ... and a string that is no documented name of the category in any casing (Config!Known) selects nothing
+         ELSE IF r.accepted_unknown # <<>> THEN "unknown-name-accepted"
          ELSE "")
     ELSE IF Allowed(r.input, r.obs) THEN ""
     ELSE IF Aborts(r.input) THEN (IF r.obs.exit = 0 THEN "unknown-name-accepted" ELSE "report-written-on-abort")
